@@ -1457,6 +1457,12 @@ func (g *Gen) govTx(w *World) TxSpec {
 		m.A = AddrGov
 		inner = append(inner, m)
 	}
+	if (g.Prop == "C10" || g.Prop == "C11" || g.Prop == "C12" || g.Prop == "C14") && g.pct(7) {
+		// the governance account as the sender of a stream it can afford from what it holds (the
+		// deposits of the live proposals, in the bond denomination)
+		inner = append(inner, MsgSpec{T: "str.create", A: AddrGov, B: g.actor(), Amt: u64s(uint64(60 * (1 + g.R.Intn(10)))), Denom: w.T.Knobs.BondDenom, N: uint64(1 + g.R.Intn(5))})
+		w.Fault("gov.stream_from_gov_account")
+	}
 	if g.pct(15) {
 		// a tail message that fails at execution: the proposal passes the vote, x/gov runs its
 		// messages on a branch and must discard all of them
